@@ -221,6 +221,118 @@ fn purity(rep: &mut Report) {
     }
 }
 
+/// Spec node of `data` = 16 aligned subtrees of `sub` bytes followed by a tail shorter than `sub`
+/// (so the left child of the root is the complete 16*sub subtree): the sixteen subtree chaining
+/// values are computed on threads by the recursive definition and merged pairwise.
+fn spec_root_parallel(mode: &b3spec::Mode, data: &[u8], sub: usize) -> b3spec::Node {
+    assert!(sub.is_power_of_two() && sub >= 1024 && data.len() > 16 * sub && data.len() - 16 * sub <= sub);
+    let mut cvs: Vec<[u8; 32]> = std::thread::scope(|s| {
+        let hs: Vec<_> = (0..16).map(|i| s.spawn(move || b3spec::node(mode, &data[i * sub..(i + 1) * sub], (i * sub / 1024) as u64).chaining_value())).collect();
+        hs.into_iter().map(|h| h.join().expect("spec thread")).collect()
+    });
+    while cvs.len() > 1 {
+        cvs = cvs.chunks(2).map(|p| b3spec::parent_node(mode, &p[0], &p[1]).chaining_value()).collect();
+    }
+    let right = b3spec::node(mode, &data[16 * sub..], (16 * sub / 1024) as u64).chaining_value();
+    b3spec::parent_node(mode, &cvs[0], &right)
+}
+
+fn huge_data(max: usize) -> Vec<u8> {
+    // 251-periodic paint, generated block-wise (stream_a is byte-wise and would take a while)
+    let period: Vec<u8> = (0..251 * 4096).map(|i| (i % 251) as u8).collect();
+    let mut v = Vec::with_capacity(max);
+    while v.len() < max {
+        let take = (max - v.len()).min(period.len());
+        v.extend_from_slice(&period[..take]);
+    }
+    v
+}
+
+/// C02 at the 4 GiB boundary (thorough tier, best level, keyed mode): one update of more than 2^32
+/// bytes, the same bytes in uneven pieces, and the reader adapter; count() after every piece and the
+/// final hash / extended output against the spec.
+pub fn huge_hasher(rep: &mut Report, all_plans: bool) {
+    let levels = subject::levels();
+    let (lname, level) = levels.last().unwrap().clone();
+    let n = (1usize << 32) + 3 * 1024 + 77;
+    let mode = ModeSpec::Keyed(*vcommon::TEST_KEY);
+    let owned = huge_data(n);
+    let data = &owned;
+    // the spec value, with the aligned 2^28-byte subtrees computed on separate threads; the same
+    // composition is first checked at a small scale against the plain recursive definition
+    let small = 16 * 65536 + 3 * 1024 + 77;
+    if spec_root_parallel(&mode.spec(), &data[..small], 65536).root_bytes(0, 100) != b3spec::node(&mode.spec(), &data[..small], 0).root_bytes(0, 100) {
+        eprintln!("ORACLE-ANCHOR-FAILED: parallel composition of the spec differs from the recursive definition");
+        std::process::exit(2);
+    }
+    let node = spec_root_parallel(&mode.spec(), data, 1 << 28);
+    let exp = node.root_bytes(0, 100);
+    subject::force(Some(level));
+    let plans: [(&str, Vec<usize>); 4] = [
+        ("one update", vec![n]),
+        ("2^32 then the rest", vec![1usize << 32, n - (1usize << 32)]),
+        ("uneven pieces", vec![1, (1usize << 31) - 1, 1025, (1usize << 31) + 64, n - (1usize << 32) - 1025 - 64]),
+        ("2^32 - 1 first", vec![(1usize << 32) - 1, 1, n - (1usize << 32)]),
+    ];
+    for (pi, (what, pieces)) in plans.iter().enumerate() {
+        if !all_plans && pi % 2 == 1 {
+            continue;
+        }
+        assert_eq!(pieces.iter().sum::<usize>(), n);
+        rep.inc("evaluations");
+        rep.inc("distinct_nontrivial");
+        rep.inc("spec_comparisons");
+        rep.inc("huge_histories");
+        let r = vcommon::catch(|| {
+            let mut h = mode.hasher();
+            let mut at = 0usize;
+            for &k in pieces {
+                h.update(&data[at..at + k]);
+                at += k;
+                if h.count() != at as u64 {
+                    return Err(format!("count() is {} after {} bytes", h.count(), at));
+                }
+            }
+            let mut out = [0u8; 100];
+            h.finalize_xof().fill(&mut out);
+            if out[..] != exp[..] || h.finalize().as_bytes()[..] != exp[..32] {
+                return Err("hash / extended output differs from the spec".to_string());
+            }
+            Ok(())
+        });
+        let bad = match r {
+            Ok(Ok(())) => None,
+            Ok(Err(m)) => Some(m),
+            Err(m) => Some(format!("panic: {}", m)),
+        };
+        if let Some(m) = bad {
+            rep.violation("Hasher:huge-input", format!("keyed Hasher at {} fed {} bytes as {} {:?}: {}", lname, n, what, pieces, m),
+                json!({"property": "C02", "engine": "core/hasher_bfs", "huge": {"pieces": pieces, "level": lname}, "check": "Hasher:huge-input"}));
+        }
+    }
+    #[cfg(feature = "std")]
+    if all_plans {
+        rep.inc("evaluations");
+        rep.inc("huge_histories");
+        let r = vcommon::catch(|| {
+            let mut h = mode.hasher();
+            h.update_reader(std::io::Cursor::new(&data[..])).map_err(|e| e.to_string())?;
+            if h.count() != n as u64 {
+                return Err(format!("count() is {} after update_reader of {} bytes", h.count(), n));
+            }
+            if h.finalize().as_bytes()[..] != exp[..32] {
+                return Err("hash differs from the spec".to_string());
+            }
+            Ok(())
+        });
+        if r != Ok(Ok(())) {
+            rep.violation("Hasher:huge-input", format!("keyed Hasher at {} update_reader of {} bytes: {:?}", lname, n, r),
+                json!({"property": "C02", "engine": "core/hasher_bfs", "huge": {"pieces": ["update_reader", n], "level": lname}, "check": "Hasher:huge-input"}));
+        }
+    }
+    subject::force(None);
+}
+
 /// Inputs beyond 2 GiB / 4 GiB (thorough tier, best level, hash mode): 32-bit truncations of
 /// lengths or offsets only show up here.
 fn huge(rep: &mut Report) {
@@ -228,16 +340,7 @@ fn huge(rep: &mut Report) {
     let (lname, level) = levels.last().unwrap().clone();
     let lens: [usize; 4] = [(1usize << 31) - 1, (1usize << 31) + 1, (1usize << 32) - 1, (1usize << 32) + 1025];
     let max = *lens.iter().max().unwrap();
-    let data: Vec<u8> = {
-        // 251-periodic paint, generated block-wise (stream_a is byte-wise and would take a while)
-        let period: Vec<u8> = (0..251 * 4096).map(|i| (i % 251) as u8).collect();
-        let mut v = Vec::with_capacity(max);
-        while v.len() < max {
-            let take = (max - v.len()).min(period.len());
-            v.extend_from_slice(&period[..take]);
-        }
-        v
-    };
+    let data = huge_data(max);
     let mode = ModeSpec::Hash;
     let mut oracle = b3spec::StreamOracle::new(mode.spec(), Vec::new());
     oracle.data = data;
